@@ -334,7 +334,7 @@ func (e *Engine) canInline(f *frame, fn *ssa.Function, ct *Contract) bool {
 		return false
 	}
 	info := e.W.fnInfo(fn)
-	if info.rejects {
+	if info.rejects && !(e.AbstractConc && !info.hard) {
 		return false
 	}
 	if ct != nil && ct.Inline {
